@@ -8,6 +8,18 @@ TB = "Trusted: Go 1.23.5 stdlib, circl v1.3.7, go-hpke, x/crypto, rapid v1.3.0, 
 
 # id -> (technique, level text, design_ref, extra note)
 CLAIMS = {
+ "C12": ("rapid PBT on four curves against an RFC 9380 hash-to-field reference written in the harness; algebraic laws (inverse, commutativity, one-at-a-time injectivity)",
+         "Signing keys, blind-key byte strings (leading zeros, >= N, empty/0/1/N-1, far above N), contexts (nil/empty/0x00/long) and digests of length 0..128 are drawn on P-224/256/384/521. The blinded key must equal [r]pk with r recomputed from scratch (expand_message_xmd self-tested against RFC 9380 vectors) on crypto/elliptic; blind-key signatures must verify under it with this package and crypto/ecdsa and not under the unblinded key; unblind inverts, blindings commute, blind and context each bind the key.",
+         "DESIGN.md section 4 C12", "Blind-key bytes are the minimal big-endian bytes of the blind scalar (the encoding the code and all callers use); the statement fixes no width."),
+ "C13": ("differential rapid PBT against crypto/ecdsa (Go 1.23.5) + exhaustive entropy-fault enumeration",
+         "Verify and VerifyASN1 are compared with the standard library on valid keys of four curves, digests 0..128 bytes, adversarial (r,s) (0, negatives, N-1, N, N+1, r+N, N-s, 2^k, random up to 640 bits) and structurally mutated DER (non-minimal/negative integers, trailing bytes, long-form/indefinite lengths, wrong tags, 1 or 3 integers, truncations, bit flips, random bytes); every fork signing entry point is verified by the standard library and vice versa. Entropy readers failing after every byte position 0..need+1 under four chunkings and two error styles are enumerated for GenerateKey and all signing entry points.",
+         "DESIGN.md section 4 C13", "fault_enumeration for the entropy part is folded into this exploration-level evidence; readers obey the io.Reader contract (progress or error)."),
+ "C14": ("differential rapid PBT against crypto/ed25519 + structural signature/key generators + internal arithmetic vs a math/big Edwards model through build-tag hooks",
+         "Key derivation, Sign and PrivateKey.Sign must be byte-equal to crypto/ed25519 for drawn seeds/messages; GenerateKey must consume entropy, fail and count reads identically for every failure position 0..33 and four chunkings; Verify must agree with the standard library on triples built structurally (S+kL, top bits, special S, small-order and non-canonical R and A, forged R=[S]B under identity-like keys, random encodings, lengths 0/63/65). Through ed25519/verif_hooks.go the internal scalar reduction, fork-specific SetBytes and ModInverse, scMulAdd, point decode/add/scalar multiplications are compared with an affine math/big model on limb-boundary-biased inputs.",
+         "DESIGN.md section 4 C14", "The math/big model is self-tested against RFC 8032 vector 1; a defect confined to one carry pattern is only as likely to be hit as the biased generators make it."),
+ "C15": ("rapid PBT against the math/big Edwards model and crypto/ed25519.Verify; algebraic laws",
+         "For drawn seeds, 32-byte blinds, contexts and messages the blinded key must equal [SHA-512(blind||00||ctx)[:32] mod l]A on the model, blind-key signatures must be deterministic and verify under the blinded key with the standard library (not under the original key), unblind must invert blind, blindings must commute, and blind and context must each change the key and invalidate the signature.",
+         "DESIGN.md section 4 C15", "Blinds are 32 bytes (the documented length)."),
  "C06": ("rapid PBT of mutated (request, blind, client key) triples against an independent authenticity predicate and a recording cache",
          "Honest triples from real clients are mutated field by field (bit flips, spliced signatures, (r,N-s), extreme r/s, wrong/re-encoded/empty blind, other/negated/malformed client key, malformed request key); VerifyRequest==nil must imply crypto/ecdsa.Verify over the exact contents AND request key == the harness's own hash-to-field blinding of the client key on crypto/elliptic; rejected or unauthentic calls must cause no Put and leave every stored state unchanged; honest triples must be accepted.",
          "DESIGN.md section 4 C06", "Requests carry a 96-byte signature (what the decoder produces); shorter in-memory signatures are outside the domain."),
